@@ -17,7 +17,7 @@ func init() {
 	register("C18", checkC18)
 	describe("C18", Meta{
 		Technique: "skeleton extraction from the HDL string builders (literal text with holes) plus three structural rules: declare-once groups (OnlyOne guard lists agree across the group and no member declares the shared identifier unguarded), identifier/driver consistency of self-contained module generators, and index-space discipline (processor vs domain vs shared-object index) across the three module levels",
-		Claim:     "Decides structural clauses of C18 on the generators (no Verilog tool exists in the sandbox): (G) for every helper register declared under an arch.OnlyOne guard, every opcode of the guard list carries the same guarded declaration with the same list, the declaring opcode is in its own list, and no other opcode declares the same identifier unconditionally — so the identifier is declared exactly once for every opcode subset that contains a user; (M) in every generator that emits a whole module (module … endmodule in one function), every literal identifier used as a clock in an event control, or as the target of a procedural or continuous assignment, is declared in that module, and no register is assigned in two always blocks that can be emitted together; (K) the module, instance and wrapper generators index processors, domains and shared objects in their own index spaces (a processor index used as a domain index yields mismatched port lists). Necessary conditions only: syntax of arbitrary configurations, widths, and identifiers spelled through holes that the patterns cannot relate are not decided.",
+		Claim:     "Decides structural clauses of C18 on the generators (no Verilog tool exists in the sandbox): (G) for every helper register declared under an arch.OnlyOne guard, every opcode of the guard list carries the same guarded declaration with the same list, the declaring opcode is in its own list, and no other opcode declares the same identifier unconditionally — so the identifier is declared exactly once for every opcode subset that contains a user; (M) in every generator that emits a whole module (module … endmodule in one function), every literal identifier used as a clock in an event control, or as the target of a procedural or continuous assignment, is declared in that module, and no register is assigned in two always blocks that can be emitted together; (K) the module, instance and wrapper generators index processors, domains and shared objects in their own index spaces (a processor index used as a domain index yields mismatched port lists). The two other declare-once idioms are decided too: an opcode that leaves declarations to another opcode (deference loop over arch.Op) relies on that opcode declaring each identifier in the same method, and all users of one Runinfo.Check flag guard the same declarations. Necessary conditions only: syntax of arbitrary configurations, widths, and identifiers spelled through holes that the patterns cannot relate are not decided.",
 		Note:      "Holes (non-literal parts of a concatenation) match any identifier fragment; a verdict 'undeclared' is only issued for fully literal identifiers in modules whose declarations contain no bare hole.",
 		DesignRef: "DESIGN.md §2 C18",
 	})
@@ -367,6 +367,183 @@ func c18Groups(r *core.Run, prog *core.Program) {
 		}
 	}
 	r.Count("declare_once_obligations", nG)
+	c18Deference(r, prog, opName, typeOfName)
+}
+
+// c18Deference decides the two other declare-once idioms of pkg/procbuilder:
+//
+//	(D) deference:  flag := true; for _, o := range arch.Op { if o.Op_get_name() == "X" { flag = false; break } ... }
+//	                if flag { <declarations> }     — the opcode leaves the declarations to X when X is present;
+//	(F) first-come: flag := conf.Runinfo.Check("name"); if flag { <declarations> }  — whoever renders first declares.
+//
+// (D) every opcode X deferred to must emit, in the same method, every identifier the deferring block
+// declares (otherwise a processor holding both uses it undeclared). (F) all users of one flag name
+// must guard the same set of declarations (otherwise what is declared depends on who came first).
+func c18Deference(r *core.Run, prog *core.Program, opName, typeOfName map[string]string) {
+	pk := prog.Pkg("pkg/procbuilder")
+	info := pk.TypesInfo
+	type dsite struct {
+		typ, method string
+		to          []string // opcode names deferred to
+		flag        string   // Runinfo.Check flag name
+		decls       []string
+		pos         token.Pos
+	}
+	var dsites []dsite
+	allDecls := map[string]map[string]bool{} // "Type.Method" -> declared identifiers anywhere in the method
+	core.FuncDecls(pk, func(_ *ast.File, fd *ast.FuncDecl) {
+		rn := core.RecvTypeName(info, fd)
+		if rn == "" || !strings.Contains(strings.ToLower(fd.Name.Name), "verilog") {
+			return
+		}
+		key := rn + "." + fd.Name.Name
+		allDecls[key] = map[string]bool{}
+		for _, t := range appendedText(info, fd.Body) {
+			for _, d := range declaredIn(t.text) {
+				allDecls[key][d] = true
+			}
+		}
+		ast.Inspect(fd.Body, func(n ast.Node) bool {
+			ifs, ok := n.(*ast.IfStmt)
+			if !ok {
+				return true
+			}
+			fid, ok := ast.Unparen(ifs.Cond).(*ast.Ident)
+			if !ok {
+				return true
+			}
+			fobj := info.ObjectOf(fid)
+			if fobj == nil {
+				return true
+			}
+			ds := dsite{typ: rn, method: fd.Name.Name, pos: ifs.Pos()}
+			for _, t := range appendedText(info, ifs.Body) {
+				ds.decls = append(ds.decls, declaredIn(t.text)...)
+			}
+			if len(ds.decls) == 0 {
+				return true
+			}
+			// how is the flag computed? (statements of the function before the if)
+			ast.Inspect(fd.Body, func(m ast.Node) bool {
+				if m == nil || m.Pos() >= ifs.Pos() {
+					return m == nil || m.Pos() < ifs.Pos()
+				}
+				switch x := m.(type) {
+				case *ast.AssignStmt:
+					if len(x.Lhs) == 1 && len(x.Rhs) == 1 {
+						if id, ok := x.Lhs[0].(*ast.Ident); ok && info.ObjectOf(id) == fobj {
+							if call, ok := x.Rhs[0].(*ast.CallExpr); ok {
+								if c := core.CalleeOf(info, call); c != nil && c.Name() == "Check" && len(call.Args) == 1 {
+									if f, ok := constStr(info, call.Args[0]); ok {
+										ds.flag = f
+									}
+								}
+							}
+						}
+					}
+				case *ast.IfStmt:
+					// if <cond naming opcodes> { flag = false; ... }
+					sets := false
+					for _, st := range x.Body.List {
+						if as, ok := st.(*ast.AssignStmt); ok && len(as.Lhs) == 1 && len(as.Rhs) == 1 {
+							if id, ok := as.Lhs[0].(*ast.Ident); ok && info.ObjectOf(id) == fobj {
+								if v, ok := as.Rhs[0].(*ast.Ident); ok && v.Name == "false" {
+									sets = true
+								}
+							}
+						}
+					}
+					if sets {
+						ast.Inspect(x.Cond, func(k ast.Node) bool {
+							if be, ok := k.(*ast.BinaryExpr); ok && be.Op == token.EQL {
+								for _, pair := range [][2]ast.Expr{{be.X, be.Y}, {be.Y, be.X}} {
+									if call, ok := ast.Unparen(pair[0]).(*ast.CallExpr); ok {
+										if c := core.CalleeOf(info, call); c != nil && c.Name() == "Op_get_name" {
+											if sname, ok := constStr(info, pair[1]); ok {
+												ds.to = append(ds.to, sname)
+											}
+										}
+									}
+								}
+							}
+							return true
+						})
+					}
+				}
+				return true
+			})
+			if ds.flag != "" || len(ds.to) > 0 {
+				dsites = append(dsites, ds)
+			}
+			return true
+		})
+	})
+	sort.Slice(dsites, func(i, j int) bool {
+		if dsites[i].typ != dsites[j].typ {
+			return dsites[i].typ < dsites[j].typ
+		}
+		return dsites[i].pos < dsites[j].pos
+	})
+	uniqS := func(l []string) []string {
+		m := map[string]bool{}
+		for _, x := range l {
+			m[x] = true
+		}
+		var o []string
+		for x := range m {
+			o = append(o, x)
+		}
+		sort.Strings(o)
+		return o
+	}
+	nD, nF := 0, 0
+	// (D)
+	for _, ds := range dsites {
+		for _, to := range uniqS(ds.to) {
+			tt, ok := typeOfName[to]
+			if !ok {
+				r.Violation("C18/ONCE", fmt.Sprintf("C18/ONCE:defer:%s.%s->%s:unknown", ds.typ, ds.method, to), prog.Pos(ds.pos), fmt.Sprintf("%s.%s leaves its declarations {%s} to opcode %q, which is not a registered opcode name: the declarations are never emitted", ds.typ, ds.method, strings.Join(uniqS(ds.decls), ","), to))
+				continue
+			}
+			have := allDecls[tt+"."+ds.method]
+			for _, d := range uniqS(ds.decls) {
+				nD++
+				inst := fmt.Sprintf("C18/ONCE:defer:%s.%s->%s:%s", ds.typ, ds.method, to, d)
+				if have[d] {
+					r.OK("C18/ONCE", inst, prog.Pos(ds.pos), "the opcode deferred to declares the identifier in the same method")
+				} else {
+					r.Violation("C18/ONCE", inst, prog.Pos(ds.pos), fmt.Sprintf("%s.%s does not declare %q when opcode %q is in the processor (it defers to it), but %s.%s never declares %q: a processor holding both %q and %q emits Verilog that uses the identifier without a declaration", ds.typ, ds.method, strings.ReplaceAll(d, hole, "<name>"), to, tt, ds.method, strings.ReplaceAll(d, hole, "<name>"), opName[ds.typ], to))
+				}
+			}
+		}
+	}
+	// (F)
+	byFlag := map[string][]dsite{}
+	for _, ds := range dsites {
+		if ds.flag != "" {
+			byFlag[ds.flag+"@"+ds.method] = append(byFlag[ds.flag+"@"+ds.method], ds)
+		}
+	}
+	var fk []string
+	for k := range byFlag {
+		fk = append(fk, k)
+	}
+	sort.Strings(fk)
+	for _, k := range fk {
+		g := byFlag[k]
+		ref := strings.Join(uniqS(g[0].decls), ",")
+		for _, ds := range g {
+			nF++
+			inst := fmt.Sprintf("C18/ONCE:flag:%s:%s.%s", k, ds.typ, ds.method)
+			if got := strings.Join(uniqS(ds.decls), ","); got == ref {
+				r.OK("C18/ONCE", inst, prog.Pos(ds.pos), "same declarations as the other users of the flag")
+			} else {
+				r.Violation("C18/ONCE", inst, prog.Pos(ds.pos), fmt.Sprintf("%s.%s declares {%s} under the first-come flag %q while %s.%s declares {%s} under the same flag: which identifiers exist depends on which opcode is rendered first, and the other's are used undeclared", ds.typ, ds.method, got, k, g[0].typ, g[0].method, ref))
+			}
+		}
+	}
+	r.Count("deference_obligations", nD)
+	r.Count("first_come_flag_sites", nF)
 }
 
 // ---- M: self-contained module generators ----------------------------------------------------------
